@@ -19,6 +19,7 @@ import props  # noqa: E402
 import smt_run  # noqa: E402
 
 
+MAX_NATIVE_REPLAYS = 2
 DEFAULT_STUBS = {"alloc::fmt::format", "core::result::unwrap_failed", "tracing::level_filters::LevelFilter::current", "tracing::Event::dispatch",
                  "tracing::__macro_support::__is_enabled", "tracing::callsite::DefaultCallsite::interest"}
 
@@ -469,6 +470,11 @@ def run_property(pid, tier, seed, jobs, only=None, write_evidence=True):
                     log(f"[{pid}] {name}: could not obtain a concrete counterexample")
                     inconclusive.append(name)
                     sample["replay"] = "no counterexample"
+                elif violations >= MAX_NATIVE_REPLAYS:
+                    # enough reproduced violations to fail the check; further failing harnesses are
+                    # listed with their solver counterexample but not re-executed natively
+                    sample["replay"] = {"path": path, "native": "skipped (replay cap reached)"}
+                    log(f"[{pid}] {name}: also FAILED {[c['msg'] for c in unknown]} (counterexample {path}; native replay skipped, cap reached)")
                 else:
                     status, out = native_replay(path)
                     sample["replay"] = {"path": path, "native": status}
